@@ -301,6 +301,7 @@ def analyse_method(cls_name, fn, mutators):
       'directAcc': has_sites and not ur_a and not ud_a,
       'hasRaw': bool(all_raw),
       'delegates': sorted({d for d, _ in all_dele}),
+      'precheck': False,
       'accScope': bool(acc_deleg) and {d for d, _ in acc_deleg} == {d for d, _ in all_dele},
       'notify': _notify_kind(fn),
       'line': fn.lineno,
@@ -337,7 +338,59 @@ def analyse_rebind_chain(base_tree, cls_name, cls_node):
   fn = common.find_func(cls_node, '_sym_rebind')
   rec = analyse_method(cls_name, fn, [])
   rec['notify'] = 'param'
+  rec['precheck'] = has_precheck(base_tree, cls_name, fn)
   return rec
+
+
+def has_precheck(base_tree, cls_name, fn):
+  """`self._ensure_rebind_targets_writable(<pairs>)` as a top-level statement of `_sym_rebind`
+  before the write loop, and the helper has the expected shape."""
+  sym = common.find_class(base_tree, 'Symbolic')
+  helper = common.find_func_opt(sym, '_ensure_rebind_targets_writable')
+  if helper is None:
+    return False
+  pairs_arg = fn.args.args[1].arg
+  sites = Sites(cls_name, [])
+  body = [s for s in fn.body if not (isinstance(s, ast.Expr) and isinstance(s.value, ast.Constant))]
+  called = False
+  for s in body:
+    if (isinstance(s, ast.Expr) and _is_call_attr(s.value, '_ensure_rebind_targets_writable')
+        and _is_name(s.value.func.value, 'self') and len(s.value.args) == 1
+        and _is_name(s.value.args[0], pairs_arg)):
+      called = True
+      break
+    if sites.has_site(s):
+      break
+  if not called:
+    return False
+  # helper: for path in <arg>: ... parent = path.parent.query(self) ... if isinstance(parent, Symbolic)
+  # and treats_as_sealed(parent): raise WritePermissionError; no mutation site.
+  harg = helper.args.args[1].arg
+  loops = [n for n in helper.body if isinstance(n, ast.For) and _is_name(n.iter, harg)]
+  if len(loops) != 1:
+    raise TranslatorError('_ensure_rebind_targets_writable: expected one loop over its argument')
+  loop = loops[0]
+  subject = None
+  for n in ast.walk(loop):
+    if (isinstance(n, ast.Assign) and len(n.targets) == 1 and isinstance(n.targets[0], ast.Name)
+        and _is_call_attr(n.value, 'query') and len(n.value.args) == 1 and _is_name(n.value.args[0], 'self')
+        and ast.unparse(n.value.func.value) == loop.target.id + '.parent'):
+      subject = n.targets[0].id
+  ok = False
+  for n in loop.body:
+    if isinstance(n, ast.If) and not n.orelse and _raises_wpe(n.body):
+      t = n.test
+      conds = t.values if isinstance(t, ast.BoolOp) and isinstance(t.op, ast.And) else [t]
+      if subject and any(_is_guard_call(c, 'treats_as_sealed', subject) for c in conds) and all(
+          _is_guard_call(c, 'treats_as_sealed', subject)
+          or (isinstance(c, ast.Call) and _is_name(c.func, 'isinstance') and _is_name(c.args[0], subject)
+              and _is_name(c.args[1], 'Symbolic')) for c in conds):
+        ok = True
+  if not ok:
+    raise TranslatorError('_ensure_rebind_targets_writable: sealed check on `path.parent.query(self)` not recognised')
+  if Sites('Dict', []).has_site(helper):
+    raise TranslatorError('_ensure_rebind_targets_writable contains a mutation site')
+  return True
 
 
 def analyse_tree_set(base_tree):
@@ -361,7 +414,7 @@ def analyse_tree_set(base_tree):
   site_idx = [i for i, s in enumerate(body) if any(m is calls[0] for m in ast.walk(s))]
   direct = bool(guard_idx) and bool(site_idx) and guard_idx[0] < site_idx[0]
   return {'overridden': True, 'baseMutates': True, 'directSealed': direct, 'directAcc': False,
-          'hasRaw': True, 'delegates': [], 'accScope': False, 'notify': 'none', 'line': fn.lineno,
+          'precheck': False, 'hasRaw': True, 'delegates': [], 'accScope': False, 'notify': 'none', 'line': fn.lineno,
           'raw_sites': [('_set_item_without_permission_check', calls[0].lineno)], 'delegate_sites': []}
 
 
@@ -430,7 +483,7 @@ def run():
   ocls = common.find_class(otree, 'Object')
 
   table = {}
-  absent = {'overridden': False, 'directSealed': False, 'directAcc': False, 'hasRaw': False,
+  absent = {'overridden': False, 'precheck': False, 'directSealed': False, 'directAcc': False, 'hasRaw': False,
             'delegates': [], 'accScope': False, 'notify': 'none', 'line': 0, 'raw_sites': [],
             'delegate_sites': []}
   for (cname, cls, muts) in (('List', lcls, LIST_MUTATORS), ('Dict', dcls, DICT_MUTATORS + ['__setattr__', '__delattr__']),
@@ -477,6 +530,7 @@ def run():
              f'hasRaw := {common.lean_bool(r["hasRaw"])}, '
              f'delegates := [{", ".join("." + d for d in r["delegates"])}], '
              f'accScope := {common.lean_bool(r["accScope"])}, '
+             f'precheck := {common.lean_bool(r["precheck"])}, '
              f'notify := .{r["notify"]} }}')
   L.append('')
   L.append('/-- Does `List.seal` / `Dict.seal` return early when the own flag already has the requested')
@@ -502,6 +556,7 @@ if __name__ == '__main__':
   import json
   out = run()['sidecar']
   for ep, r in out['table'].items():
-    print('%-14s ov=%d S=%d A=%d raw=%d accScope=%d notify=%-5s deleg=%s' % (
-        ep, r['overridden'], r['directSealed'], r['directAcc'], r['hasRaw'], r['accScope'], r['notify'], r['delegates']))
+    print('%-14s ov=%d S=%d A=%d raw=%d accScope=%d pre=%d notify=%-5s deleg=%s' % (
+        ep, r['overridden'], r['directSealed'], r['directAcc'], r['hasRaw'], r['accScope'], r['precheck'],
+        r['notify'], r['delegates']))
   print(json.dumps({k: out[k] for k in ('predicates', 'seal')}))
